@@ -69,6 +69,11 @@ impl RtpsStatefulReader {
         source_guid_prefix: GuidPrefix,
         source_timestamp: Option<Time>,
     ) {
+        // RTPS 8.3.7.2.3: a DATA with a non-positive writerSN is invalid; the sequence number after it
+        // must also be representable
+        if data_submessage.writer_sn() <= 0 || data_submessage.writer_sn() == i64::MAX {
+            return;
+        }
         let writer_guid = Guid::new(source_guid_prefix, data_submessage.writer_id());
         let sequence_number = data_submessage.writer_sn();
         if let Some(writer_proxy) = self
@@ -121,6 +126,7 @@ impl RtpsStatefulReader {
         // RTPS 8.3.7.3.3: a DATA_FRAG with a non-positive writerSN, a zero fragmentStartingNum, a zero
         // fragmentSize or no fragments is invalid
         if data_frag_submessage.writer_sn() <= 0
+            || data_frag_submessage.writer_sn() == i64::MAX
             || data_frag_submessage.fragment_starting_num() == 0
             || data_frag_submessage.fragment_size() == 0
             || data_frag_submessage.fragments_in_submessage() == 0
